@@ -1,9 +1,198 @@
-(* C08 -- placeholder while the proofs are being built *)
-From Coq Require Import ZArith List Bool.
-From AV Require Import Lib.Bytes Model.Crc32c Model.SctpWire.
+(* C08 -- SCTP packets round-trip exactly; corrupted packets are rejected by the
+   checksum.  Property theorems only; proofs live in Proof/Crc32cP.v,
+   Proof/SctpWireP.v, Proof/SctpWireRtP.v, Proof/SctpBurstP.v and (parser
+   totality, shared with C05) Proof/SctpWireTotalP.v.
+
+   `chunk_okb c = true` is "every field of c is in the range struct.pack accepts
+   and the type number is one of the 15 chunk classes"; `checksum_okb p = true`
+   is "the CRC-32C stored in bytes 8..11 of p is the CRC of p with that field
+   zeroed".  Bits are numbered in the order CRC-32C consumes them (= order of
+   transmission): bit i of a packet is bit (i mod 8), least significant first,
+   of byte (i / 8); the checksum field is bits 64..95. *)
+From Coq Require Import ZArith List Bool Arith.
+From AV Require Import Lib.Bytes Lib.BytesP Gen.SctpConst Model.Crc32c Model.SctpWire
+  Proof.Crc32cP Proof.SctpWireP Proof.SctpWireRtP Proof.SctpWireTotalP Proof.SctpBurstP.
 Import ListNotations.
 Local Open Scope Z_scope.
 
-Theorem C08_crc_check_value : crc32c [49;50;51;52;53;54;55;56;57] = 3808858755.
+(* ---------------------------------------------------------------- round trip *)
+
+(* Every well-formed chunk of each of the 15 types (any flags, any field values in wire
+   range, any parameter list / gap list / duplicate list / stream list / user data, all
+   lengths and all padding residues) serialises; the packet parses back to exactly the
+   same ports, tag and chunk; and whatever parse_packet returns for that packet
+   serialises to the identical bytes. *)
+Theorem C08_chunk_roundtrip : forall sp dp tag c,
+  in_u16 sp = true -> in_u16 dp = true -> in_u32 tag = true -> chunk_okb c = true ->
+  exists data,
+    serialize_packet sp dp tag c = Ok data /\ bytes_ok data /\
+    parse_packet data = Ok (sp, dp, tag, [c]) /\
+    (forall sp' dp' tag' c', parse_packet data = Ok (sp', dp', tag', [c']) ->
+                             serialize_packet sp' dp' tag' c' = Ok data).
+Proof.
+  intros sp dp tag c Hsp Hdp Htag Hc.
+  destruct (chunk_roundtrip sp dp tag c Hsp Hdp Htag Hc) as (data & S & B & P).
+  exists data. repeat split; try assumption.
+  intros sp' dp' tag' c' P'. rewrite P in P'. injection P' as <- <- <- <-. exact S.
+Qed.
+Print Assumptions C08_chunk_roundtrip.
+
+(* the parser also inverts bundles of several chunks (aiortc never sends them, peers may) *)
+Theorem C08_bundle_roundtrip : forall sp dp tag cs,
+  in_u16 sp = true -> in_u16 dp = true -> in_u32 tag = true ->
+  forallb chunk_okb cs = true -> cs <> [] ->
+  parse_packet (packet_bytes sp dp tag (flat_map chunk_bytes cs)) = Ok (sp, dp, tag, cs).
+Proof. exact parse_packet_bundle. Qed.
+Print Assumptions C08_bundle_roundtrip.
+
+Theorem C08_params_roundtrip : forall ps,
+  params_okb ps = true -> decode_params (encode_params ps) = Ok ps /\ bytes_ok (encode_params ps).
+Proof. intros ps H. split; [now apply decode_encode_params|now apply encode_params_ok]. Qed.
+Print Assumptions C08_params_roundtrip.
+
+Theorem C08_reconfig_param_roundtrip : forall p,
+  rparam_okb p = true ->
+  reconfig_param_parse (rparam_type p) (rparam_bytes p) = Some (Ok p) /\ bytes_ok (rparam_bytes p).
+Proof. exact rparam_roundtrip. Qed.
+Print Assumptions C08_reconfig_param_roundtrip.
+
+(* ---------------------------------------------------------------- CRC-32C *)
+Theorem C08_crc_check_value : crc32c [49; 50; 51; 52; 53; 54; 55; 56; 57] = 3808858755.
 Proof. vm_compute. reflexivity. Qed.
 Print Assumptions C08_crc_check_value.
+
+Theorem C08_crc_linear : forall s t a b,
+  length s = 32%nat -> length t = 32%nat ->
+  step (xor_bits s t) (xorb a b) = xor_bits (step s a) (step t b).
+Proof. exact step_linear. Qed.
+Print Assumptions C08_crc_linear.
+
+Theorem C08_crc_step_injective : forall s t b,
+  length s = 32%nat -> length t = 32%nat -> step s b = step t b -> s = t.
+Proof. exact step_injective. Qed.
+Print Assumptions C08_crc_step_injective.
+
+Theorem C08_run_zero_inv : forall input s,
+  length s = 32%nat -> (length input <= 32)%nat -> run s input = zeros32 ->
+  s = input ++ repeat false (32 - length input).
+Proof. exact run_zero_inv. Qed.
+Print Assumptions C08_run_zero_inv.
+
+(* two equally long byte strings that differ by a non-zero pattern confined to <= 32
+   consecutive bits never have the same CRC-32C *)
+Theorem C08_crc_detects_bursts : forall x e k w m,
+  length x = length e ->
+  bytes_bits e = repeat false k ++ w ++ repeat false m -> (length w <= 32)%nat -> In true w ->
+  crc32c (xor_bytes x e) <> crc32c x.
+Proof. intros x e k w m Hl Hb Hw Hin. apply crc32c_burst; [exact Hl|]. exists k, w, m. auto. Qed.
+Print Assumptions C08_crc_detects_bursts.
+
+(* ---------------------------------------------------------------- corrupted packets *)
+
+(* A packet p with a correct checksum, altered by a non-zero error pattern e whose flipped
+   bits lie in a window w of at most 32 consecutive bits starting at bit k, the window lying
+   entirely before (k + |w| <= 64) or entirely after (96 <= k) the checksum field: rejected. *)
+Theorem C08_burst_detected : forall p e k w m,
+  bytes_ok e -> length e = length p -> checksum_okb p = true ->
+  bytes_bits e = repeat false k ++ w ++ repeat false m -> (length w <= 32)%nat -> In true w ->
+  (k + length w <= 64 \/ 96 <= k)%nat ->
+  parse_packet (xor_bytes p e) = ValueErr.
+Proof. exact burst_window_outside_rejected. Qed.
+Print Assumptions C08_burst_detected.
+
+(* ... window entirely inside the checksum field: rejected (the stored value changes, the
+   computed one does not) *)
+Theorem C08_burst_detected_inside : forall p e k w m,
+  bytes_ok p -> bytes_ok e -> length e = length p -> checksum_okb p = true ->
+  bytes_bits e = repeat false k ++ w ++ repeat false m -> In true w ->
+  (64 <= k /\ k + length w <= 96)%nat ->
+  parse_packet (xor_bytes p e) = ValueErr.
+Proof. exact burst_window_inside_rejected. Qed.
+Print Assumptions C08_burst_detected_inside.
+
+(* the packets the theorems are about exist: everything serialize_packet produces has a
+   correct checksum, so the two theorems above apply to every packet aiortc sends *)
+Theorem C08_serialized_checksum_ok : forall sp dp tag c data,
+  serialize_packet sp dp tag c = Ok data -> checksum_okb data = true.
+Proof.
+  intros sp dp tag c data H. unfold serialize_packet in H.
+  destruct (in_u16 sp && in_u16 dp && in_u32 tag && chunk_okb c); [|discriminate].
+  injection H as <-. apply packet_bytes_checksum_ok.
+Qed.
+Print Assumptions C08_serialized_checksum_ok.
+
+(* a packet whose stored checksum is wrong never reaches chunk processing *)
+Theorem C08_bad_checksum_rejected : forall data, checksum_okb data = false -> parse_packet data = ValueErr.
+Proof. exact parse_packet_bad_checksum. Qed.
+Print Assumptions C08_bad_checksum_rejected.
+
+(* The property as written ("ANY single burst of up to 32 bits") is false -- for every RFC 4960
+   implementation: the hypothesis on the window position in C08_burst_detected cannot be dropped.
+   Witness: a valid COOKIE-ACK packet, error pattern within the 30 bits 55..84 (9 bits of the
+   verification tag, 21 bits of the checksum field), accepted.  Known finding K6. *)
+Theorem C08_burst_straddling_refuted :
+  exists p e k w m r,
+    bytes_ok p /\ bytes_ok e /\ length e = length p /\ checksum_okb p = true /\
+    bytes_bits e = repeat false k ++ w ++ repeat false m /\ (length w <= 32)%nat /\ In true w /\
+    parse_packet (xor_bytes p e) = Ok r.
+Proof.
+  exists k6_packet, k6_error, 55%nat, k6_window, 43%nat, (5000, 5000, 32853, [CPlain 11 0 []]).
+  exact burst_straddling_witness.
+Qed.
+Print Assumptions C08_burst_straddling_refuted.
+
+(* ---------------------------------------------------------------- parser totality (for C05) *)
+(* On EVERY byte string each parser returns a value or ValueError: never another exception,
+   and its loops finish within the fuel length + 1. *)
+Theorem C08_decode_params_total : forall b, total (decode_params b).
+Proof. exact decode_params_total. Qed.
+Print Assumptions C08_decode_params_total.
+
+Theorem C08_parse_packet_total : forall b, bytes_ok b -> total (parse_packet b).
+Proof. exact parse_packet_total. Qed.
+Print Assumptions C08_parse_packet_total.
+
+Theorem C08_reconfig_params_parse_total : forall ty b,
+  match reconfig_param_parse ty b with Some r => total r | None => True end.
+Proof. exact reconfig_param_parse_total. Qed.
+Print Assumptions C08_reconfig_params_parse_total.
+
+(* ---------------------------------------------------------------- non-vacuity *)
+(* one well-formed chunk of each of the 15 types, with parameter / data lengths of all residues mod 4 *)
+Definition ex_chunks : list chunk :=
+  [ CData 3 4294967295 65535 0 51 [104; 105; 33];
+    CInit 1 0 1 131072 65535 65535 4294967295 [(49152, []); (32776, [192]); (7, [1; 2]); (9, [1; 2; 3])];
+    CInit 2 0 2 3 4 5 6 [(7, [1; 2; 3; 4; 5])];
+    CSack 0 10 1000 [(2, 3); (5, 5)] [7; 4294967295];
+    CParams 4 0 [(1, [1; 2; 3; 4; 5; 6])];
+    CParams 5 0 [(1, [9])];
+    CParams 6 1 [];
+    CShutdown 0 77;
+    CPlain 8 0 [];
+    CParams 9 0 [(3, [0; 0; 0; 1])];
+    CPlain 10 0 [1; 2; 3; 4; 5];
+    CPlain 11 0 [];
+    CPlain 14 1 [];
+    CParams 130 0 [(13, [0; 0; 0; 1; 0; 0; 0; 2; 0; 0; 0; 3; 0; 7])];
+    CForwardTsn 0 99 [(1, 2); (65535, 65535)] ].
+
+Example C08_example_all_types :
+  forallb chunk_okb ex_chunks = true /\
+  map chunk_type ex_chunks = [0; 1; 2; 3; 4; 5; 6; 7; 8; 9; 10; 11; 14; 130; 192] /\
+  parse_packet (packet_bytes 5000 5001 12345 (flat_map chunk_bytes ex_chunks)) = Ok (5000, 5001, 12345, ex_chunks).
+Proof. split; [reflexivity|]. split; [reflexivity|]. vm_compute. reflexivity. Qed.
+
+(* the hypotheses of C08_burst_detected are satisfiable: flip bits 3 and 30 of a valid packet *)
+Example C08_example_burst :
+  let p := k6_packet in
+  let e := [9; 0; 0; 64; 0; 0; 0; 0; 0; 0; 0; 0; 0; 0; 0; 0] in
+  let w := skipn 0 (firstn 31 (bytes_bits e)) in
+  bytes_ok e /\ length e = length p /\ checksum_okb p = true /\
+  bytes_bits e = repeat false 0 ++ w ++ repeat false 97 /\ (length w <= 32)%nat /\ In true w /\
+  (0 + length w <= 64 \/ 96 <= 0)%nat /\ parse_packet (xor_bytes p e) = ValueErr.
+Proof.
+  cbv zeta. split; [apply bytes_okb_ok; reflexivity|]. split; [reflexivity|]. split; [vm_compute; reflexivity|].
+  split; [vm_compute; reflexivity|]. split; [apply Nat.leb_le; vm_compute; reflexivity|].
+  split; [vm_compute; tauto|].
+  split; [left; apply Nat.leb_le; vm_compute; reflexivity|]. vm_compute. reflexivity.
+Qed.
